@@ -744,6 +744,8 @@ func ruleIndexMapUse(rule string) ruleFn {
 					c.Bad(rule, key, c.P.InstrPos(in), "helper "+FnName(exec)+" translates "+v+", not the errors of the error it was handed", nil)
 					return
 				}
+				// only writers that failed are named
+				c.Guard(rule, exec, []ssa.Instruction{in}, "attribute error", nil, atom("this writer failed", neAtom(v, "nil")))
 				if k == "$0.writerIndex[*]" && strings.HasSuffix(v, ".ReplicaErrors[*]") && sameRangeIndex(mu.Key, mu.Value) {
 					c.OK(rule, key, c.P.InstrPos(in), "errors[r.writerIndex[i]] = mErr.ReplicaErrors[i] (same range index)", true)
 				} else {
